@@ -51,7 +51,7 @@ theorem verify_spec {T : Nat → Option Block} {s : St} {b : Block} {c : List Bl
         · exact ⟨rfl, rfl, inv, rfl, by intro h; cases h⟩
         · refine ⟨rfl, rfl, ⟨inv.chain, inv.latest, inv.cache, inv.fut, inv.fromT⟩, rfl, ?_⟩
           intro _
-          simp [St.setMem]
+          exact contains_lruAdd _ _
 
 /-! ### `removeFromCommonAncestor` -/
 
@@ -146,20 +146,17 @@ theorem insertBlock_spec {T : Nat → Option Block} {s : St} {b y : Block} {c : 
     (hcont : ∀ s' f c', s'.crashed = false → Inv T s'.disk s'.mem c' → T f.hash = some f → Post T (cont s' f))
     (ha : s.crashed = false) (inv : Inv T s.disk s.mem c) (hp : b.pre = y.hash) (hy : c.head? = some y)
     (hh : y.height < b.height) (hn : s.disk.blocks b.hash = none) (hT : T b.hash = some b)
-    (hv : s.mem.verified.contains b.hash = true) : Post T (insertBlock cont s b).1 := by
-  unfold insertBlock
-  simp only
-  have hmem : (insertA s b).mem = s.mem := by simp [insertA]
-  rw [hmem, hv]
-  simp only [Bool.not_true, Bool.false_and]
-  have hAB := insertAB_spec ha inv hp hy hh hn hT
+    (hv : s.mem.verified.contains b.hash = true) (hfresh : ∀ z ∈ c, ∀ t ∈ b.txs, t ∉ z.txs) :
+    Post T (insertBlock cont s b).1 := by
+  rw [insertBlock_hit cont s b hv]
+  have hAB := insertAB_spec (s := touchVerified s b) ha (touchVerified_inv inv) hp hy hh hn hT hfresh
   have hrec : ∀ d, RecTo d c → RecIn T d := fun d r => ⟨c, r, inv.fromT⟩
-  cases hf : (insertB (insertA s b) b).mem.future b.hash with
+  cases hf : (insertB (insertA (touchVerified s b) b) b).mem.future b.hash with
   | none =>
-    simp only [Bool.false_eq_true, if_false]
+    simp only
     exact hAB.mono (fun d m p => ⟨b :: c, p.1⟩) hrec
   | some f =>
-    simp only [Bool.false_eq_true, if_false]
+    simp only
     refine Out.bind hAB (hfr f) ?_ hrec
     intro ha' p
     have := p.1.fut _ _ hf
@@ -208,7 +205,7 @@ theorem addCore_post {T : Nat → Option Block} (vt : ValidTree T) :
           have hval := vt.parent b s.mem.latest hT (by rw [hpre]; exact hTy)
           exact insertBlock_spec (fun s f => (addCore fuel s f).1) (fun f => frozen_addCore fuel f)
             (fun s' f c' ha' inv' hTf => ih s' f c' ha' inv' hTf) ha1 inv1 hpre hy hval.1
-            (by rw [vs.1]; exact hnb) hT hver
+            (by rw [vs.1]; exact hnb) hT hver (fresh_on_chain vt inv.chain.linked inv.fromT hy hpre hT)
         · split
           · exact Out.alive ha1 ⟨c, inv1⟩
           · split
@@ -289,11 +286,11 @@ theorem repairAdd_spec {s : St} {c : List Block} (ha : s.crashed = false) (hr : 
       have hc := remove_core (am := some x) (R := fun d => RecTo d c) ha (Or.inr ⟨p, hs⟩) (Or.inr ⟨x, p⟩) (fun _ r => r)
       refine hc.write .delAddMark ?_ ?_
       · intro d m q
-        obtain ⟨⟨d4, st, hd⟩, ⟨y, hy, hlat⟩, _, hfut, _, _⟩ := q
+        obtain ⟨⟨d4, st, hx4, hd⟩, ⟨y, hy, hlat⟩, _, hfut, _, _⟩ := q
         subst hd
-        exact ⟨Or.inl ⟨st.finish_add, by rw [hy, hlat]⟩, hfut⟩
+        exact ⟨Or.inl ⟨st.finish_add hx4, by rw [hy, hlat]⟩, hfut⟩
       · intro d m q
-        obtain ⟨⟨d4, st, hd⟩, _⟩ := q
+        obtain ⟨⟨d4, st, _, hd⟩, _⟩ := q
         subst hd
         exact Or.inr ⟨x, st.mid⟩
 
@@ -313,13 +310,13 @@ theorem repairRemove_spec {s : St} {c : List Block} (ha : s.crashed = false) (hm
     have hc := remove_core (am := none) (R := fun d => RecTo d c) ha (Or.inr ⟨p, hn⟩) (Or.inr ⟨x, p⟩) (fun _ r => r)
     refine hc.write .delRemoveMark ?_ ?_
     · intro d m q
-      obtain ⟨⟨d4, st, hd⟩, ⟨y, hy, hlat⟩, _, hfut, _, _⟩ := q
+      obtain ⟨⟨d4, st, hx4, hd⟩, ⟨y, hy, hlat⟩, _, hfut, _, _⟩ := q
       subst hd
-      exact ⟨st.finish.delRemoveMark, by rw [hy, hlat], hfut⟩
+      exact ⟨(st.finish hx4).delRemoveMark, by rw [hy, hlat], hfut⟩
     · intro d m q
-      obtain ⟨⟨d4, st, hd⟩, _⟩ := q
+      obtain ⟨⟨d4, st, hx4, hd⟩, _⟩ := q
       subst hd
-      exact Or.inl st.finish
+      exact Or.inl (st.finish hx4)
 
 theorem ite_some_of {α : Type} {p : Prop} [Decidable p] {a : Option α} {z : α}
     (h : (if p then a else none) = some z) : a = some z := by
